@@ -16,7 +16,7 @@ PID = "C02"
 TRANSLATE = True
 TRANSLATE_ALGO = ["AlgoParse", "AlgoReadFront"]   # Gen/AlgoParse.lean is regenerated on every run from io.py::parse_swc (the read loop and its context) and file.py::FileReader.__exit__
 DRIVER_FILES = ["SwcVerif/Model/AlgoRunParse.lean", "SwcVerif/Model/AlgoRunReadFront.lean"]
-LEAN_MODS = ["SwcVerif.Props.C02", "SwcVerif.Props.C02Gen"]
+LEAN_MODS = ["SwcVerif.Props.C02", "SwcVerif.Props.C02Gen", "SwcVerif.Props.C02Front"]
 THEOREMS = [
     "C02.exit_flag_pinned", "C02.consts_pinned", "C02.read_ok_iff", "C02.read_row_count", "C02.read_never_partial", "C02.swallow_truncates",
     "C02.blank_and_comment_skipped", "C02.data_line_fields", "C02.natOf_append", "C02.float_token_value", "C02.too_few_fields_invalid",
@@ -26,6 +26,13 @@ THEOREMS = [
     "C02.generated_parse_eq_spec", "C02.generated_read_ok_iff", "C02.generated_columns", "C02.generated_never_partial",
     "C02.generated_decode_fails_loudly", "C02.generated_warning_iff", "C02.generated_exit_propagates",
     "C02.line_agrees", "C02.generated_ok_iff_model", "C02.generated_error_iff_model",
+    # the front end (FileReader.__init__ / __enter__, detect_encoding, the extras statement: Gen/AlgoReadFront.lean) and the composition
+    # front end + read loop + tail of read_swc
+    "RefineReadFront.detect_encoding_eq", "RefineReadFront.file_reader_init_eq", "RefineReadFront.file_reader_enter_init",
+    "RefineReadFront.parse_swc_extras_eq", "RefineReadFront.openReader_eq", "RefineReadFront.parseSwcFull_eq", "RefineReadFront.readSwcFull_eq",
+    "C02.generated_detect_encoding", "C02.generated_open_reader", "C02.generated_extras", "C02.table_column",
+    "C02.generated_read_swc_rows", "C02.generated_read_swc_invalid", "C02.generated_read_swc_decode", "C02.generated_norm_dispatch",
+    "C02.generated_read_swc_sort_ignores_reset",
 ]
 TRUSTED = ["hand-written recogniser of the SWC line language (Model/SwcText.lean), tested equal to CPython's `re` on generated lines, pinned to the regex strings extracted from io.py (Gen/Consts.lean)"]
 ASSUMPTIONS = ["CPython re / int() / float() / str methods / text decoding / universal newlines", "pandas DataFrame construction from the collected columns"]
